@@ -3,7 +3,7 @@ CONSTANTS
   Names = {"B","C","Z"}
   Accts = {"a1","a2","a3"}
   Types = {"tm","bsc","eth"}
-  Payloads = {"valid","garbage","wrongkind"}
+  Payloads = {"valid","garbage","wrongkind","mixedcons"}
   Headers = {"valid","badsig","badtrust","wrongchain","garbage"}
   RuleLists <- RuleListsStd
   MaxH = 100000
